@@ -62,6 +62,7 @@ ITEMS = location_types() + budget_types() + error_types() + [
                  dict(after_loop=2, text='assert(digits.spec_bytes().take(__i2 as int) =~= digits.spec_bytes());')],
          canaries=['exact_value_or_none']),
     dict(src=S, path='fn radix_and_digits', props=P,
+         bounded=dict(harness='bounded/radix_and_digits.rs', items=[('src/parse_scalars.rs', 'fn radix_and_digits')]),
          rewrites=[
              (r'rest\.strip_prefix\("(0[xXoObB])"\)\.or_else\(\|\| rest\.strip_prefix\("(0[xXoObB])"\)\)',
               r'(match str_strip_prefix_str(rest, "\1") { Some(__v) => Some(__v), None => str_strip_prefix_str(rest, "\2") })', None, 'R8+R18'),
